@@ -2,6 +2,7 @@ package gen
 
 import (
 	"math"
+	"strings"
 
 	"pgregory.net/rapid"
 )
@@ -35,15 +36,20 @@ func pick[T any](t *rapid.T, label string, xs []T) T {
 	return xs[rapid.IntRange(0, len(xs)-1).Draw(t, label)]
 }
 
-var intPool = []int64{0, 1, 2, 3, 7, 10, 42, 255, 1 << 31, 1 << 53, math.MaxInt64}
-var floatPool = []float64{0.5, 1.5, 2.0, 1e10, 1e-7, 3.141592653589793, 1e308, math.Inf(1)}
+var intPool = []int64{0, 1, 2, 3, 7, 10, 42, 255, 1 << 31, 1 << 53, math.MaxInt64, 14, 30, 254, 0xbe, 0x1e2e, 0xabcde, 0xe0e, 1 << 62}
+var floatPool = []float64{0.5, 1.5, 2.0, 1e10, 1e-7, 3.141592653589793, 1e308, math.Inf(1), 0.0, 9223372036854775808.0, 18446744073709551616.0, 4294967296.0, 5e-324}
 
 func (p *Profile) literal(t *rapid.T) *Node {
 	switch rapid.IntRange(0, 7).Draw(t, "lit") {
 	case 0, 1:
 		n := NInt(pick(t, "int", intPool))
-		if rapid.IntRange(0, 5).Draw(t, "hex") == 0 {
+		switch rapid.IntRange(0, 9).Draw(t, "hex") {
+		case 0, 1:
 			n.Raw = hexText(n.I)
+		case 2:
+			n.Raw = "0X" + strings.ToUpper(hexText(n.I)[2:])
+		case 3:
+			n.Raw = "0x" + strings.ToUpper(hexText(n.I)[2:])
 		}
 		return n
 	case 2:
